@@ -6,7 +6,7 @@ PROP = 'C12'
 
 def run(tier, seed):
     return netcheck.run_net(PROP, tier, seed,
-        profiles=[('idl', 150, 1500, 40), ('rdl', 150, 1500, 40), ('dlrel', 200, 2000, 25)],
+        profiles=[('idl', 150, 1500, 40), ('rdl', 150, 1500, 40), ('dlrel', 50, 1200, 25)],
         rule='seeded requests of the five relations between expressions c*x + k and c*(x - y) + k (c in {1,-1,2,-2}, both '
              'variable orders, constants on either side) and bounds / distance / equates queries, on networks in random '
              'consistent states (profile dlrel: constraints asserted and propagated at root level first, then 8-14 relation requests / queries, equalities preferred); in every model the returned literal is true only if the asserted difference constraints '
